@@ -33,6 +33,44 @@ fn rand_game(rng: &mut Rng, fen: &str, max: u64) -> (Vec<String>, Vec<Board>) {
     (moves, boards)
 }
 
+/// a different ORDER of the same move strings that is also a legal game from `fen` (moves of one colour swapped among
+/// themselves), if a few random tries find one; the two orders may or may not reach the same position
+fn transposed(rng: &mut Rng, fen: &str, moves: &[String]) -> Option<Vec<String>> {
+    if moves.len() < 3 {
+        return None;
+    }
+    for _ in 0..40 {
+        let mut t = moves.to_vec();
+        let i = rng.below(t.len() as u64) as usize;
+        let mut j = rng.below(t.len() as u64) as usize;
+        if (i + j) % 2 == 1 {
+            j = (j + 1) % t.len();
+        }
+        if i == j || t[i] == t[j] {
+            continue;
+        }
+        t.swap(i, j);
+        let mut b = Board::from_fen(fen);
+        let mut ok = true;
+        for m in &t {
+            match b.get_legal_moves().iter().find(|x| &x.to_notation() == m) {
+                Some(x) => {
+                    let x = *x;
+                    b.make_move(x);
+                }
+                None => {
+                    ok = false;
+                    break;
+                }
+            }
+        }
+        if ok {
+            return Some(t);
+        }
+    }
+    None
+}
+
 fn corrupt(rng: &mut Rng, moves: &mut Vec<String>, boards: &[Board]) {
     if moves.is_empty() {
         moves.push("e2e5".into());
@@ -190,6 +228,44 @@ pub fn uci_stream(args: &[String]) {
                         lines.push(pre(h, k));
                     }
                 }
+            }
+        }
+        if rng.below(4) == 0 {
+            // the same move strings in another legal order (a transposition, or a different game made of the same strings):
+            // sent right after each other, extended, shortened — the position must be the one of the list just sent
+            let fen = super::walk::SEEDS[rng.below(super::walk::SEEDS.len() as u64) as usize];
+            let start = rng.below(2) == 0;
+            let base = if start { super::walk::SEEDS[0] } else { fen };
+            let head = if start { "position startpos".to_string() } else { format!("position fen {base}") };
+            let (moves, _) = rand_game(&mut rng, base, 9);
+            if let Some(t) = transposed(&mut rng, base, &moves) {
+                let line = |v: &[String]| if v.is_empty() { head.clone() } else { format!("{head} moves {}", v.join(" ")) };
+                // continuations of the second order
+                let mut ext = t.clone();
+                let mut b = Board::from_fen(base);
+                for m in &t {
+                    if let Some(x) = b.get_legal_moves().iter().find(|x| &x.to_notation() == m).copied() {
+                        b.make_move(x);
+                    }
+                }
+                for _ in 0..2 {
+                    let legal = b.get_legal_moves();
+                    if legal.is_empty() {
+                        break;
+                    }
+                    let x = legal[rng.below(legal.len() as u64) as usize];
+                    ext.push(x.to_notation());
+                    b.make_move(x);
+                }
+                lines.push(line(&moves));
+                lines.push(line(&t));
+                lines.push(line(&ext[..(t.len() + 1).min(ext.len())]));
+                lines.push(line(&ext));
+                lines.push(line(&moves));
+                let mut back = moves.clone();
+                back.extend(ext[t.len()..].iter().cloned()); // the continuation of the other order: legal or refused, as the rules say
+                lines.push(line(&back));
+                lines.push(line(&t[..t.len() - 1]));
             }
         }
         if rng.below(3) == 0 {
